@@ -38,7 +38,8 @@ theorem f0_inner_facts (c : String) (cp : ESV.Param) (inner : Stmt) (hc : isCtx 
 
 theorem simple_facts : ∀ (s : Stmt), cgSimple s = true → StmtFacts s ∧ simpleStmt s = true
   | .op n ps, h => by
-    obtain ⟨a, b⟩ := nameOK_split n (by simpa [cgSimple] using h)
+    simp only [cgSimple, Bool.and_eq_true] at h
+    obtain ⟨a, b⟩ := nameOK_split n h.1
     exact ⟨⟨by simp [okStmt, b], by simp [wStmt, a]⟩, rfl⟩
   | .inl c cp n ps, h => by
     simp only [cgSimple, Bool.and_eq_true] at h
@@ -47,7 +48,7 @@ theorem simple_facts : ∀ (s : Stmt), cgSimple s = true → StmtFacts s ∧ sim
   | .with_ c cp inner, h => by
     simp only [cgSimple, Bool.and_eq_true] at h
     exact ⟨f0_inner_facts c cp inner h.1 h.2, rfl⟩
-  | .ret, _ => ⟨⟨by simp [okStmt], by simp [wStmt]⟩, rfl⟩
+  | .ret, h => by simp [cgSimple] at h
   | .end_, _ => ⟨⟨by simp [okStmt], by simp [wStmt]⟩, rfl⟩
   | .hold, _ => ⟨⟨by simp [okStmt], by simp [wStmt]⟩, rfl⟩
   | .ite .., h => by simp [cgSimple] at h
@@ -68,7 +69,7 @@ theorem cg_stmt_facts (lv : Nat) : ∀ (s : Stmt), cgStmt lv s = true → StmtFa
   | .op n ps, h => (simple_facts _ (by simpa [cgStmt] using h)).1
   | .inl c cp n ps, h => (simple_facts _ (by simpa [cgStmt] using h)).1
   | .with_ c cp inner, h => (simple_facts _ (by simpa [cgStmt] using h)).1
-  | .ret, _ => (simple_facts _ rfl).1
+  | .ret, _ => ⟨by simp [okStmt], by simp [wStmt]⟩
   | .end_, _ => (simple_facts _ rfl).1
   | .hold, _ => (simple_facts _ rfl).1
   | .ite neg hdrs body elifs hasElse els, h => by
@@ -324,7 +325,7 @@ theorem compileBody_cg (cx : Cx) (fuel : Nat) (lv : Nat) (body : Stmts) (hg : cg
   obtain ⟨lb, s1, h1, ops, s2, h2, h3⟩ := h
   simp only [Prod.mk.injEq] at h1
   obtain ⟨rfl, rfl⟩ := h1
-  have hp := cStmts_c cx fuel lv body s.lbc hg hu { } (envOK_empty cx) _ _ _ h2
+  have hp := cStmts_c { cx with cp := {} } fuel lv body s.lbc hg hu { } (envOK_empty _ rfl) _ _ _ h2
   have l2 : s2.loops = [] := by rw [hp.loops]; exact hl
   have c2 : s2.cases = [] := by rw [hp.cases]; exact hc
   split at h3
